@@ -42,16 +42,77 @@ def cond_term(canon, test, pol):
     return t if pol else negate(canon, t)
 
 
+def _as_append(e):
+    """x.extend([y]) / x += [y]  ->  x.append(y)"""
+    if isinstance(e, ast.Call) and isinstance(e.func, ast.Attribute) and e.func.attr == "extend" and len(e.args) == 1 and \
+            not e.keywords and isinstance(e.args[0], (ast.List, ast.Tuple)) and len(e.args[0].elts) == 1:
+        return ast.Call(func=ast.Attribute(value=e.func.value, attr="append", ctx=ast.Load()), args=[e.args[0].elts[0]], keywords=[])
+    if isinstance(e, ast.AugAssign) and isinstance(e.op, ast.Add) and isinstance(e.value, ast.List) and len(e.value.elts) == 1:
+        return ast.Call(func=ast.Attribute(value=e.target, attr="append", ctx=ast.Load()), args=[e.value.elts[0]], keywords=[])
+    return e
+
+
+# methods of the built-in containers: their meaning is fixed, so a summary that differs in one of them differs decidedly
+CONTAINER_METHODS = {"append", "insert", "extend", "add", "update", "pop", "remove", "clear", "discard", "setdefault", "get",
+                     "items", "keys", "values", "popitem", "appendleft", "popleft", "index", "count", "sort", "reverse", "copy"}
+
+
 def effect_term(canon, e):
+    e = _as_append(e)
     if isinstance(e, ast.Assign):
         return ("store", tuple(canon.term(t) for t in e.targets), canon(e.value))
     if isinstance(e, ast.AugAssign):
         return ("aug", type(e.op).__name__, canon.term(e.target), canon(e.value))
     if isinstance(e, ast.expr):
         return ("do", canon.term(e))
-    if isinstance(e, (ast.For, ast.While)):
-        return ("loop", unparse(e))
+    if isinstance(e, (ast.For, ast.AsyncFor, ast.While)):
+        return loop_term(canon, e)
     return ("stmt", unparse(e))
+
+
+class _Rename(ast.NodeTransformer):
+    def __init__(self, table):
+        self.table = table
+
+    def visit_Name(self, node):
+        if node.id in self.table:
+            return ast.copy_location(ast.Name(id=self.table[node.id], ctx=node.ctx), node)
+        return node
+
+
+def loop_term(canon, e, depth=0):
+    """a loop as a term: kind, what it iterates over / its condition, and the path summary of its body with the loop
+    variables renamed positionally — two loops that differ in the names of their variables, or in how their bodies spell
+    the same branches, get the same term.  Loops too large to enumerate stay textual."""
+    from .symx import assigned_names
+    import copy
+    try:
+        if isinstance(e, ast.While):
+            head = ("while", _truthy(canon.term(e.test)))
+            table = {}
+        else:
+            tnames = [n.id for n in ast.walk(e.target) if isinstance(n, ast.Name)]
+            table = {n: f"_it{depth}_{k}" for k, n in enumerate(tnames)}
+            shape = _Rename(table).visit(copy.deepcopy(e.target))
+            head = ("async for" if isinstance(e, ast.AsyncFor) else "for", unparse(shape), canon.term(e.iter))
+        body = [_Rename(table).visit(copy.deepcopy(b)) for b in e.body]
+        carried = tuple(sorted(assigned_names(body) - set(table.values())))
+        paths = run_paths(body, max_paths=256)
+        summ = summarise(paths, canon, "loop body", track=carried)
+        orelse = ()
+        if e.orelse:
+            orelse = frozenset(summarise(run_paths(list(e.orelse), max_paths=64), canon, "loop else"))
+        return ("loop",) + head + (frozenset(summ), orelse)
+    except AnalysisError:
+        return ("loop", "text", unparse(e))
+
+
+DIAGNOSTIC_CALLS = ("warnings.warn", "warn")
+
+
+def _diagnostic(e):
+    """a call that only reports (warnings.warn): not part of the behaviour compared"""
+    return isinstance(e, ast.Call) and dotted(e.func) in DIAGNOSTIC_CALLS
 
 
 def summarise(paths, canon, what, raises=True, track=()):
@@ -60,7 +121,7 @@ def summarise(paths, canon, what, raises=True, track=()):
     out = set()
     for p in paths:
         conds = frozenset(cond_term(canon, t, pol) for t, pol in p.conds_open())
-        effects = tuple(effect_term(canon, e) for e in p.effects)
+        effects = tuple(effect_term(canon, e) for e in p.effects if not _diagnostic(e))
         for name in track:
             if name in p.env:
                 effects = effects + (("store", (("name", name),), canon(p.env[name])),)
@@ -105,9 +166,17 @@ def vocabulary(summary):
     voc = set()
 
     def walk(t, inwidth=False):
+        if isinstance(t, frozenset):
+            for y in t:
+                walk(y, inwidth)
+            return
         if not isinstance(t, tuple) or not t:
             return
         k = t[0]
+        if not isinstance(k, str):
+            for y in t:
+                walk(y, inwidth)
+            return
         if k == "call":
             f = t[1]
             voc.add("call:" + (f[1] if isinstance(f, tuple) and f[0] == "name" else (f[2] if isinstance(f, tuple) and f[0] == "attr" else "?")))
@@ -156,6 +225,9 @@ def text(summary):
                 s += ", ".join(term_text(t) for t in x[1]) + " = " + term_text(x[2]) + "; "
             elif x[0] == "do":
                 s += term_text(x[1]) + "; "
+            elif x[0] == "loop" and len(x) >= 4 and isinstance(x[-2], frozenset):
+                head = f"while {term_text(x[2])}" if x[1] == "while" else f"{x[1]} {x[2]} in {term_text(x[3])}"
+                s += head + ": { " + text(x[-2]) + " }" + ((" else { " + text(x[-1]) + " }") if x[-1] else "") + "; "
             else:
                 s += str(x[0]) + "(" + ", ".join(term_text(y) if isinstance(y, tuple) else str(y) for y in x[1:]) + "); "
         if r[0] == "return":
@@ -182,7 +254,10 @@ def compare(ctx, rule, construct, where, what, found_paths, refs, names=None, ho
     ref_voc = set()
     for w in wants:
         ref_voc |= vocabulary(w)
-    extra = vocabulary(found) - ref_voc
+    extra = vocabulary(found) - ref_voc - {"call:" + m for m in CONTAINER_METHODS}
+    if not (ref_voc & {"tt", "mask", "shl", "shr", "bitexpr", "mod", "floordiv", "pow"}):
+        # a reference without bit-level or division constructs: integer polynomials are compared exactly by the canonical form
+        extra -= {"poly@value", "poly@width"}
     if extra:
         raise AnalysisError(f"{what}: the code uses constructs {sorted(extra)} that the reference semantics of this rule does not "
                             f"({where}); equivalence cannot be decided — found `{text(found)[:400]}`")
